@@ -1,0 +1,13 @@
+//go:build verif
+
+package verify
+
+// Exports for the verification harness (build tag "verif" only; add-only).
+
+import "github.com/sassoftware/relic/v8/signers"
+
+// VerifVerifyOne is verifyOne: detect the type of the file at path, pick the
+// signer module and run its verifier.
+func VerifVerifyOne(path string, opts signers.VerifyOpts) error {
+	return verifyOne(path, opts)
+}
